@@ -15,7 +15,8 @@ EXPLANATION = (
     "identifier inside try/except KeyError with an effect-free miss branch; fired entries leave their registry on the same "
     "path (at most once), removed entries are fired, transferred or re-registered (at least once); the identifier reaching "
     "encode() comes from the allocator, is the one copied to deferred.msgId, is never reassigned, is the registry key and "
-    "the callback argument. Decides these structural clauses for all paths; does not explore interleavings. R-FRAME: the premises of the framing lemma (every rule of C03) hold, a necessary condition of anything said about inbound packets.")
+    "the callback argument. Decides these structural clauses for all paths; does not explore interleavings. R-FRAME: the premises of the framing lemma (every rule of C03) hold, a necessary condition of anything said about inbound packets. "
+    " R-IDS - C17's allocator rules as the premise of 'the acknowledgement for its identifier': an identifier names at most one unfinished exchange.")
 ASSUMPTIONS = ["a broker answers a QoS 1 PUBLISH with PUBACK and a QoS 2 PUBLISH with PUBREC (the property's own quantifier)"]
 
 EXPECT_FIRE = {"windowPublish": "PUBACK", "windowPubRelease": "PUBCOMP", "windowSubscribe": "SUBACK",
@@ -26,6 +27,12 @@ def check(ctx):
     a = ctx.a
     from .c03 import framing_premise
     framing_premise(ctx, 'R-FRAME', 'an acknowledgement that is mis-framed fires the wrong publish request, or none')
+    # "only when a PUBACK / PUBCOMP for its packet identifier arrives": the identifier names ONE unfinished exchange only if the
+    # allocator never hands out one that is still in use (C17's rules)
+    from .common import run_premise
+    run_premise(ctx, "C17", "R-IDS", "identifiers", "an identifier names at most one unfinished exchange",
+                "two unfinished publishes share an identifier: the acknowledgement of one settles the other, which then succeeds without "
+                "the acknowledgement its QoS level requires while the first never fires")
     caps, pm, _ = capabilities(a)
     classes = [c for c in a.protos if "pub" in caps.get(c.qual, set())]
     ctx.floor("publisher-capable classes", len(classes), 2)
